@@ -801,9 +801,13 @@ func notNil(v reflect.Value) bool {
 }
 
 func (st *Runtime) isSet(node Node) (ok bool) {
+	// state that constructs evaluated below (a range inside exec(), YieldBlock, ...) restore only when they exit normally
+	scope, context, content := st.scope, st.context, st.content
+
 	defer func() {
 		if r := recover(); r != nil {
 			// something panicked while evaluating node
+			st.scope, st.context, st.content = scope, context, content
 			ok = false
 		}
 	}()
@@ -1186,8 +1190,9 @@ func (st *Runtime) evalAdditiveExpression(node *AdditiveExprNode) reflect.Value 
 			if !isAdditive {
 				node.Right.errorf("minus signal is not allowed with strings")
 			}
-			// converts []byte (and alias types of []byte) to string
-			if right.Kind() == reflect.Slice && right.Type().Elem().Kind() == reflect.Uint8 {
+			// converts []byte (and alias types of []byte) to string; a slice of a named byte type is not
+			// convertible (Convert would panic) and is printed like any other slice
+			if right.Kind() == reflect.Slice && right.Type().Elem().Kind() == reflect.Uint8 && right.Type().ConvertibleTo(left.Type()) {
 				right = right.Convert(left.Type())
 			}
 			left = reflect.ValueOf(left.String() + fmt.Sprint(right))
